@@ -436,7 +436,7 @@ func (i InfixExpression) PrettyPrint(out *PrintState) *PrintState {
 		// (a-(b-c) is not a-b-c). Historical exception: a+(b+c) is printed a+b+c.
 		rightParen := false
 		if r, ok := i.Right.(*InfixExpression); ok && !out.AllParens {
-			rightParen = Precedences[r.Type()] == Precedences[i.Type()] && !(i.Type() == token.PLUS && r.Type() == token.PLUS)
+			rightParen = Precedences[r.Type()] == Precedences[i.Type()] && !(i.Type() == token.PLUS && plusChain(r))
 		}
 		if rightParen {
 			out.Print("(")
@@ -451,6 +451,18 @@ func (i InfixExpression) PrettyPrint(out *PrintState) *PrintState {
 	}
 	out.ExpressionPrecedence = oldPrecedence
 	return out
+}
+
+// plusChain is true for b + c (+ d...) whose leftmost operand isn't itself another same precedence operation
+// like in (b - c) + d.
+func plusChain(e *InfixExpression) bool {
+	if e.Type() != token.PLUS {
+		return false
+	}
+	if l, ok := e.Left.(*InfixExpression); ok && Precedences[l.Type()] == Precedences[token.PLUS] {
+		return plusChain(l)
+	}
+	return true
 }
 
 type Boolean struct {
